@@ -261,6 +261,7 @@ func runC13(c *Check, a *Analysis) {
 			c.Ob("R-IDLE-CAP", sc.key(fn, "newConnQueue(t.MaxIdleConnsPerHost)"), p.InstrPos(nq), ok, ifs(!ok, "idle queue created with capacity "+describe(nq.Common().Args[0])+" instead of t.MaxIdleConnsPerHost"))
 		}
 	}
+	ruleTracked(c, a, "R-TRACKED")
 	ruleEnqueueOrClose(c, a, "R-IDLE-CAP")
 
 	ruleMovePair(c, a, "R-MOVE-PAIR")
@@ -574,6 +575,7 @@ func runC15(c *Check, a *Analysis) {
 	ruleLockBalance(c, a, "R-LOCK-BALANCE", "Transport.connsMu", "persistConn.mu")
 	ls := a.Locks()
 	sc := siteCounter{}
+	ruleRetireTiming(c, a, "R-RETIRE-TIMING")
 	c.Rule("R-BUSY-GUARD", "in housekeeping and CloseIdleConnections every Close / removal of an active-list entry is dominated by NumCalls() == 0 on that connection", 4)
 	for _, name := range []string{"(*Transport).run", "(*Transport).CloseIdleConnections"} {
 		fn := p.Fn(name)
@@ -707,6 +709,7 @@ func runC15(c *Check, a *Analysis) {
 
 	// a connection that drops out of both pool structures without being closed is never reclaimed
 	ruleFreshLookup(c, a, "R-FRESH-LOOKUP")
+	ruleTracked(c, a, "R-TRACKED")
 	ruleMovePair(c, a, "R-MOVE-PAIR")
 	ruleEnqueueOrClose(c, a, "R-IDLE-CAP")
 	c.Rule("R-NUMCALLS", "Conn.NumCalls reads len(pending) and len(streams) under Conn.mutex and its result has both among its origins", 2)
@@ -863,5 +866,252 @@ func ruleEnqueueOrClose(c *Check, a *Analysis, rule string) {
 			}
 			c.Ob(rule, sc.key(fn, "rejected by Enqueue ⇒ Close"), p.InstrPos(in), okClose, ifs(!okClose, "a connection that does not fit into the idle queue is neither queued nor closed (leaked, uncounted)"))
 		}
+	}
+}
+
+// ruleTracked is shared by C13 and C15: every connection getConn hands out is
+// entered in the active list, the list methods add / remove what they are asked
+// to, and a list is dropped from the pool map only when it is empty.
+func ruleTracked(c *Check, a *Analysis, rule string) {
+	p := c.P
+	sc := siteCounter{}
+	c.Rule(rule, "every dialed or dequeued connection that getConn returns is first entered into the address's active list; (*conns).Append stores append(Conns, pc); (*conns).Delete removes exactly the indexed element; delete(t.conns, addr) / delete(t.idleConns, addr) only for an empty container", 8)
+	gc := p.Fn("(*Transport).getConn")
+	if gc == nil {
+		c.Undecided(rule, "getConn not found")
+		return
+	}
+	isTrack := func(x ssa.Instruction) bool {
+		if isCallTo(x, "(*conns).Append") {
+			return true
+		}
+		if st, ok := x.(*ssa.Store); ok {
+			if ia, ok := st.Addr.(*ssa.IndexAddr); ok && isLoadOf(p.canon(ia.X), "conns", "Conns") {
+				return true
+			}
+			// `return nil, err`: the named result is cleared
+			if _, ok := st.Addr.(*ssa.Alloc); ok && nilConst(st.Val) && strings.HasSuffix(st.Val.Type().String(), "persistConn") {
+				return true
+			}
+		}
+		if r, ok := x.(*ssa.Return); ok && len(r.Results) > 0 && nilConst(r.Results[0]) {
+			return true
+		}
+		return false
+	}
+	var sources []ssa.Instruction
+	for _, d := range callsIn(gc, "(*connQueue).Dequeue") {
+		sources = append(sources, d.(ssa.Instruction))
+	}
+	for _, d := range callsIn(gc, "(*Transport).newPersistConn") {
+		sources = append(sources, d.(ssa.Instruction))
+	}
+	if len(sources) < 4 {
+		c.Undecided(rule, fmt.Sprintf("expected at least four dial / dequeue sites in getConn, found %d", len(sources)))
+	}
+	for _, s := range sources {
+		_, tr, found := p.reachFrom(gc, s, func(x ssa.Instruction) bool { _, ok := x.(*ssa.Return); return ok }, isTrack)
+		c.Ob(rule, sc.key(gc, "handed-out connection is listed"), p.InstrPos(s), !found, ifs(found, "a connection obtained here is returned to the caller without being entered in the active list (path "+p.lineTrail(tr)+"): it is not counted against MaxConnsPerHost, every further call dials again, and Transport.Close never closes it"))
+	}
+	// Append / Delete bodies
+	if ap := p.Fn("(*conns).Append"); ap != nil && len(ap.Params) == 2 {
+		ok := false
+		for _, st := range p.fieldStoresIn(ap, "conns", "Conns") {
+			if cc, isC := p.canon(st.Val).(*ssa.Call); isC && calleeName(cc) == "builtin append" && isLoadOf(p.canon(cc.Call.Args[0]), "conns", "Conns") {
+				for _, e := range appendedElems(p, cc) {
+					if p.canon(e) == ssa.Value(ap.Params[1]) {
+						ok = true
+					}
+				}
+			}
+		}
+		c.Ob(rule, "(*conns).Append#stores append(Conns, pc)", ap.Pos(), ok, ifs(!ok, "Append does not add its argument to the active list"))
+	} else {
+		c.Undecided(rule, "(*conns).Append not found")
+	}
+	if del := p.Fn("(*conns).Delete"); del != nil && len(del.Params) == 2 {
+		idx := ssa.Value(del.Params[1])
+		isIdx := func(v ssa.Value) bool { return p.canon(v) == idx }
+		isIdxPlus1 := func(v ssa.Value) bool {
+			b, ok := p.canon(v).(*ssa.BinOp)
+			if !ok || b.Op != token.ADD {
+				return false
+			}
+			k, isK := constInt(b.Y)
+			return isK && k == 1 && isIdx(b.X)
+		}
+		conns := func(v ssa.Value) bool { return isLoadOf(p.canon(v), "conns", "Conns") }
+		var tailOK, headOK, shrinkOK bool
+		eachInstr(del, func(in ssa.Instruction) {
+			cc, ok := in.(*ssa.Call)
+			if !ok {
+				return
+			}
+			switch calleeName(cc) {
+			case "builtin copy":
+				d, okd := p.canon(cc.Call.Args[0]).(*ssa.Slice)
+				s, oks := p.canon(cc.Call.Args[1]).(*ssa.Slice)
+				if okd && oks && conns(d.X) && conns(s.X) && d.Low != nil && isIdx(d.Low) && s.Low != nil && isIdxPlus1(s.Low) && d.High == nil && s.High == nil {
+					headOK, tailOK = true, true
+				}
+			case "builtin append":
+				d, okd := p.canon(cc.Call.Args[0]).(*ssa.Slice)
+				s, oks := p.canon(cc.Call.Args[1]).(*ssa.Slice)
+				if okd && oks && conns(d.X) && conns(s.X) && d.Low == nil && d.High != nil && isIdx(d.High) && s.Low != nil && isIdxPlus1(s.Low) && s.High == nil {
+					headOK, tailOK = true, true
+					for _, st := range p.fieldStoresIn(del, "conns", "Conns") {
+						if p.canon(st.Val) == ssa.Value(cc) {
+							shrinkOK = true
+						}
+					}
+				}
+			}
+		})
+		for _, st := range p.fieldStoresIn(del, "conns", "Conns") {
+			if sl, ok := p.canon(st.Val).(*ssa.Slice); ok && conns(sl.X) && sl.Low == nil && sl.High != nil {
+				if b, ok := p.canon(sl.High).(*ssa.BinOp); ok && b.Op == token.SUB {
+					k, isK := constInt(b.Y)
+					if cl, isC := p.canon(b.X).(*ssa.Call); isC && calleeName(cl) == "builtin len" && conns(cl.Call.Args[0]) && isK && k == 1 {
+						shrinkOK = true
+					}
+				}
+			}
+		}
+		ok := headOK && tailOK && shrinkOK
+		c.Ob(rule, "(*conns).Delete#removes exactly element [cursor]", del.Pos(), ok, ifs(!ok, "Delete does not shift Conns[cursor+1:] onto Conns[cursor:] and shrink the list by one: a connection other than the retired one leaves the list (it is then never closed) while the retired one stays listed"))
+	} else {
+		c.Undecided(rule, "(*conns).Delete not found")
+	}
+	// containers leave the pool maps only when empty
+	for _, tbl := range []struct{ field, st, inner string }{{"conns", "conns", "Conns"}, {"idleConns", "connQueue", "length"}} {
+		for _, op := range p.mapOps("Transport", tbl.field) {
+			if op.Kind != "delete" {
+				continue
+			}
+			var m condMatch
+			if tbl.field == "conns" {
+				m = matchFieldLenZero(p, "conns", "Conns")
+			} else {
+				m = matchQueueEmpty(p)
+			}
+			g, _ := p.guardedBy(op.Instr, m)
+			// a delete inside a loop that closes every element of the container (Transport.Close, CloseIdleConnections' idle part) is also fine
+			if !g && tbl.field == "idleConns" && drainsContainer(p, op) {
+				g = true
+			}
+			c.Ob(rule, sc.key(op.Fn, "delete(t."+tbl.field+", addr) only when empty"), p.InstrPos(op.Instr), g, ifs(!g, "a container that may still hold connections is dropped from t."+tbl.field+": those connections are no longer counted nor closed by Transport.Close"))
+		}
+	}
+}
+
+// matchQueueEmpty recognises cq.Length() == 0.
+func matchQueueEmpty(p *Prog) condMatch {
+	return func(cond ssa.Value) (bool, bool) {
+		b, ok := cond.(*ssa.BinOp)
+		if !ok || (b.Op != token.EQL && b.Op != token.NEQ) {
+			return false, false
+		}
+		k, isK := constInt(b.Y)
+		cc, isC := p.canon(b.X).(*ssa.Call)
+		if !isK || k != 0 || !isC || calleeName(cc) != "(*connQueue).Length" {
+			return false, false
+		}
+		return true, b.Op == token.EQL
+	}
+}
+
+// drainsContainer: the delete of an idle queue is preceded, in the same function, by a
+// counted loop every iteration of which dequeues an element (the queue is emptied by
+// construction rather than tested).
+func drainsContainer(p *Prog, op MapOp) bool {
+	found := false
+	eachInstr(op.Fn, func(in ssa.Instruction) {
+		if !isCallTo(in, "(*connQueue).Dequeue") || !p.canReach(in, op.Instr, never) {
+			return
+		}
+		b := in.Block()
+		// loop header: nearest dominator of b that b can reach again
+		for h := b; h != nil; h = h.Idom() {
+			var latches []*ssa.BasicBlock
+			for _, pr := range h.Preds {
+				if h.Dominates(pr) && blockReaches(b, pr) {
+					latches = append(latches, pr)
+				}
+			}
+			if len(latches) == 0 {
+				continue
+			}
+			all := true
+			for _, l := range latches {
+				if !b.Dominates(l) {
+					all = false
+				}
+			}
+			if all {
+				found = true
+			}
+			break
+		}
+	})
+	return found
+}
+
+func blockReaches(from, to *ssa.BasicBlock) bool {
+	seen := map[*ssa.BasicBlock]bool{}
+	var walk func(b *ssa.BasicBlock) bool
+	walk = func(b *ssa.BasicBlock) bool {
+		if b == to {
+			return true
+		}
+		if seen[b] {
+			return false
+		}
+		seen[b] = true
+		for _, s := range b.Succs {
+			if walk(s) {
+				return true
+			}
+		}
+		return false
+	}
+	return walk(from)
+}
+
+// matchOlderThan recognises pc.lastTime.Add(t.<field>).Before(...).
+func matchOlderThan(p *Prog, field string) condMatch {
+	return func(cond ssa.Value) (bool, bool) {
+		bc, ok := p.canon(cond).(*ssa.Call)
+		if !ok || calleeName(bc) != "(time.Time).Before" {
+			return false, false
+		}
+		ad, ok := p.canon(bc.Call.Args[0]).(*ssa.Call)
+		if !ok || calleeName(ad) != "(time.Time).Add" {
+			return false, false
+		}
+		if !isLoadOf(p.canon(ad.Call.Args[0]), "persistConn", "lastTime") || !isLoadOf(p.canon(ad.Call.Args[1]), "Transport", field) {
+			return false, false
+		}
+		return true, true
+	}
+}
+
+// ruleRetireTiming (C15): housekeeping retires only what has been unused for KeepAlive
+// and closes parked connections only after IdleConnTimeout.
+func ruleRetireTiming(c *Check, a *Analysis, rule string) {
+	p := c.P
+	c.Rule(rule, "in the housekeeping loop a connection leaves the active list only under lastTime+KeepAlive < now, and a parked connection is dequeued and closed only under lastTime+IdleConnTimeout < now", 2)
+	run := p.Fn("(*Transport).run")
+	if run == nil {
+		c.Undecided(rule, "housekeeping loop not found")
+		return
+	}
+	sc := siteCounter{}
+	for _, d := range callsIn(run, "(*conns).Delete") {
+		g, _ := p.guardedBy(d.(ssa.Instruction), matchOlderThan(p, "KeepAlive"))
+		c.Ob(rule, sc.key(run, "retire only after KeepAlive"), p.InstrPos(d), g, ifs(!g, "an active connection is retired without having been unused for KeepAlive"))
+	}
+	for _, d := range callsIn(run, "(*connQueue).Dequeue") {
+		g, _ := p.guardedBy(d.(ssa.Instruction), matchOlderThan(p, "IdleConnTimeout"))
+		c.Ob(rule, sc.key(run, "close parked only after IdleConnTimeout"), p.InstrPos(d), g, ifs(!g, "a parked connection is closed without having been idle for IdleConnTimeout"))
 	}
 }
